@@ -112,28 +112,28 @@ func copyHeap(h HeapView) HeapView {
 // ---- Exec: per-function verification context ----
 
 type Exec struct {
-	prog     *Program
-	fn       *ssa.Function
-	fc       *FuncContract
-	name     string // obligation prefix: pkg.Key
-	obls     []*Obligation
-	paths    int
-	pathCap  int
-	fresh    int
-	keySort  map[string]Sort
-	err      error // function outside subset / outside reach
-	loops    map[*ssa.BasicBlock]*loopInfo
-	escaping map[*ssa.Alloc]bool
-	params   map[string]SV
-	results  []string
-	warnings []string
-	inlineDepthCap int
-	covers   []*Obligation // reachability (must be sat) queries
+	prog             *Program
+	fn               *ssa.Function
+	fc               *FuncContract
+	name             string // obligation prefix: pkg.Key
+	obls             []*Obligation
+	paths            int
+	pathCap          int
+	fresh            int
+	keySort          map[string]Sort
+	err              error // function outside subset / outside reach
+	loops            map[*ssa.BasicBlock]*loopInfo
+	escaping         map[*ssa.Alloc]bool
+	params           map[string]SV
+	results          []string
+	warnings         []string
+	inlineDepthCap   int
+	covers           []*Obligation // reachability (must be sat) queries
 	extraAssumptions map[string]bool
-	currentLemma string
-	retPos token.Pos
-	pruned int
-	qn     int
+	currentLemma     string
+	retPos           token.Pos
+	pruned           int
+	qn               int
 }
 
 type unsupported struct{ msg string }
